@@ -43,3 +43,10 @@ claim('C10',
       'expressions, all six sequence kinds are handled explicitly with byte-indexed strings, machine arithmetic on user indices is '
       'sign-guarded or reviewed, prefix iteration of streams requires non-negative bounds, bad indices raise.',
       'value-origin dataflow over MIR + accessor decision table + assert census with sign-guard dominance')
+claim('C03',
+      'Decides the ingredients of operator-precedence grouping, not the grouping theorem: the exhaustive tie-break table of '
+      'tighter_than_when_before enumerated from MIR discriminant paths with operand roles, the shunting shape of give/finish '
+      '(pop/try_chain/run only on the reduce path, merge keeps the popped precedence, final push of the incoming operator, operand '
+      'order), driver and sibling agreement, left-to-right single evaluation in the chain loop, and the complete who-chains-with-whom '
+      'table of all try_chain overrides.',
+      'discriminant-path enumeration of MIR + guard-polarity/dominance queries + literal tables from HIR patterns')
